@@ -15,6 +15,16 @@ def norm_type(t):
     return re.sub(r"\s+", " ", t.replace("\n", " ")).strip()
 
 
+def generalises(reported, expected):
+    """the type the editor reports may be more general than the generator's monomorphic typing (`let v = None` has type
+    `Option a`, the generator uses it at Option Int): a type variable of the reported type stands for any type"""
+    r = re.sub(r"^forall [a-z0-9 ]+\. ", "", reported)
+    if r == expected:
+        return True
+    pat = "".join("(.+)" if re.fullmatch(r"[a-z][a-z0-9_]*", tok) else re.escape(tok) for tok in re.split(r"(\b[a-z][a-z0-9_]*\b)", r))
+    return re.fullmatch(pat, expected) is not None
+
+
 def run(tier):
     t0 = time.time()
     seed = vlib.seed()
@@ -71,7 +81,7 @@ def run(tier):
                     typed_checks += 1
                     want = langlib.GLUON_TYPE.get(ty)
                     got = finds.get(off)
-                    if want and got is not None and norm_type(got) != want:
+                    if want and got is not None and not generalises(norm_type(got), want):
                         type_ok = False
                         V.violation("wrong-type-at-identifier:%s" % ty, "type at the identifier v%d (byte %d) is reported as `%s`, the checker's type is `%s`\n%s" % (idx, off, norm_type(got), want, j["src"]), dict(rep, offset=off))
                     # completion right after the `v`: every suggested v<k> must be one of the k <= depth enclosing binders
@@ -88,7 +98,8 @@ def run(tier):
                     full = sugg.get(off - 1, []) if off >= 2 and j["src"][off - 1] in " (" and j["src"][off - 2] in " (>=,+-*<|&" else []
                     if len(full) > 5 and always is not None:
                         full_checks += 1
-                        extra = [n for n in full if n not in always and not (re.fullmatch(r"v\d+", n) and int(n[1:]) <= depth)]
+                        # (names starting with an upper-case letter are types or constructors, not pattern binders)
+                        extra = [n for n in full if n not in always and not n[:1].isupper() and not (re.fullmatch(r"v\d+", n) and int(n[1:]) <= depth)]
                         if extra:
                             scope_ok = False
                             cls = sorted({"wildcard" if n == "_" else "label" if n in ("x", "y") else "variable" if re.fullmatch(r"v\d+", n) else "other" for n in extra})
